@@ -18,7 +18,7 @@ import argparse
 import sys
 
 import sympy
-from sympy.logic.boolalg import to_anf, to_cnf, to_dnf, to_nnf
+from sympy.logic.boolalg import to_cnf, to_dnf, to_nnf
 
 import qlasskit
 from qlasskit.boolopt.bool_optimizer import merge_expressions
@@ -33,6 +33,42 @@ def read_input(input_file):
         return sys.stdin.read()
     with open(input_file, "r") as file:
         return file.read()
+
+
+def _anf_monomials(expr):
+    """Monomials (sets of symbols) of the algebraic normal form of expr"""
+    if expr == sympy.true:
+        return {frozenset()}
+    elif expr == sympy.false:
+        return set()
+    elif isinstance(expr, sympy.Symbol):
+        return {frozenset([expr])}
+    elif isinstance(expr, sympy.Not):
+        return _anf_monomials(expr.args[0]) ^ {frozenset()}
+    elif isinstance(expr, sympy.Xor):
+        res = set()
+        for arg in expr.args:
+            res ^= _anf_monomials(arg)
+        return res
+    elif isinstance(expr, sympy.And):
+        res = {frozenset()}
+        for arg in expr.args:
+            prod = set()
+            for m1 in res:
+                for m2 in _anf_monomials(arg):
+                    prod ^= {m1 | m2}
+            res = prod
+        return res
+    elif isinstance(expr, sympy.Or):
+        return _anf_monomials(sympy.Not(sympy.And(*map(sympy.Not, expr.args))))
+    return _anf_monomials(to_nnf(expr, simplify=False))
+
+
+def to_anf(expr):
+    # sympy's to_anf drops operands with the same normal form instead of
+    # cancelling them: ~(a ^ ~a) becomes True
+    mons = [sympy.And(*m) for m in _anf_monomials(expr)]
+    return sympy.Xor(*mons, remove_true=False) if len(mons) > 0 else sympy.false
 
 
 def convert_to_bool_expression(qlassf: QlassF, form: str):
